@@ -124,7 +124,12 @@ impl Monitor for C14 {
                         r.violation(
                             "C14",
                             "R5-shutdown-left-vamm-open",
-                            format!("R5|already_closed={}|{}", n_closed.min(1), outcome(&st.out)),
+                            format!(
+                                "R5|already_closed={}|foreign_fund={}|{}",
+                                n_closed.min(1),
+                                (0..w.vamms.len()).any(|k| pre.vamms[k].registered && pre.vamms[k].cfg_insurance != w.insurance.as_str()) as u8,
+                                outcome(&st.out)
+                            ),
                             format!("after ShutdownVamms ({}; {}) registered vamm{} is still open; {} of {} registered were already closed", outcome(&st.out), st.out.err_text(), i, n_closed, closed_before.len()),
                             st.seq,
                         );
